@@ -71,7 +71,7 @@ func init() {
 	}})
 }
 
-var renderStrings = []string{"", "a", "<b>&\"'", "x\ny", "\t", "é世界", "</doc>", "]]>", "  pad  ", "\u2028", "0", "null", strings.Repeat("z", 200), "\u0001ctl", "a\\b"}
+var renderStrings = []string{"", "a", "<b>&\"'", "x\ny", "\t", "é世界", "</doc>", "]]>", "  pad  ", "\u2028", "0", "null", strings.Repeat("z", 200), "\u0001ctl", "a\\b", "\ufeffhello world!", "\ufeff", "hello\ufeff", "\ufeff\ufeffx"}
 
 func genJSONValue(rng *rand.Rand, depth int) interface{} {
 	k := rng.Intn(8)
@@ -153,6 +153,10 @@ func genRenderCase(rng *rand.Rand) *renderCase {
 		b := make([]byte, n)
 		for i := range b {
 			b[i] = byte(rng.Intn(256))
+		}
+		if rng.Intn(8) == 0 {
+			// leading byte sequences that tempt a renderer to be clever: byte-order marks, magic numbers, markup
+			b = append([]byte([]string{"\xef\xbb\xbf", "\xff\xfe", "\xfe\xff", "\x1f\x8b\x08", "<!DOCTYPE html>", "{\"a\":", "%PDF-", "\x00\x00\xfe\xff"}[rng.Intn(8)]), b...)
 		}
 		if rng.Intn(3) == 0 {
 			b = []byte(renderStrings[rng.Intn(len(renderStrings))])
